@@ -21,7 +21,7 @@ OUTSIDE = ['floating-point rounding', 'tm // tm and tm // ndarray (least-squares
 ASSUMPTIONS = ['"exponential" in the invariant is the library\'s own MatrixExp3, whose correctness is C01\'s obligation',
                'summary mode for Exp/Log of composed rotations (contracts from C01)']
 EXPLORER_DEFAULTS = {'quick': dict(prove_timeout_ms=30000, time_budget_s=900, max_paths=400),
-                     'thorough': dict(prove_timeout_ms=120000, time_budget_s=2400, max_paths=3000)}
+                     'thorough': dict(prove_timeout_ms=120000, time_budget_s=1200, max_paths=3000)}
 TOL = '5e-6'
 
 
